@@ -28,7 +28,7 @@ PROPS = {
     "C01": P("frames generated from the repo's own types over all 8 MTypes (join-request, join-accept with both CFList kinds, rejoin 0/1/2, data up/down confirmed/unconfirmed, proprietary), "
              "all flag combinations, FOpts 0..15 bytes as commands or opaque bytes, FPort absent/0/1..255, FRMPayload lengths biased to 0,1,15,16,17,...,242,255; 1 in 5 deliberately invalid; "
              "each is encoded AND decoded by the implementation (phyrt), plus base64 text and join-accept encrypt/decrypt; non-trivial = implementation returned ok",
-             trusted=["encoding/base64 modelled (LW/Model/Base64.lean), validated by correspondence only", "JoinAccept/CFList decode after decryption is compared with the model but its round-trip theorem is not yet proved"]),
+             trusted=["encoding/base64 modelled (LW/Model/Base64.lean): the model's decode-of-encode identity is a theorem (C01_base64); that the model is encoding/base64.StdEncoding is validated by correspondence (every text op)", "channel-mask CFLists round-trip up to trailing zero masks (hypothesis cfListCanonical of C01_cflist_roundtrip)"]),
     "C02": P("data frames (up/down, confirmed/unconfirmed, FOpts/FPort/FRMPayload incl. multi-block lengths to 255 bytes) x random 128-bit keys x both MAC versions x FCnt/ConfFCnt biased to 0,1,0xFFFF,0x10000,2^32-1 x all txDR/txCh bytes x ACK set/unset; "
              "for each: set MIC, validate the frame carrying it, validate a frame carrying another MIC, cmacF-only validation; the specification MIC is computed with the driver's own AES/CMAC",
              trusted=["crypto/aes and jacobsa/crypto/cmac are modelled by an arbitrary block cipher in the theorems; the driver's executable AES-128 + RFC 4493 CMAC is validated against them on every op",
@@ -102,9 +102,9 @@ PROPS = {
              "key envelopes with 16/24/32-byte and invalid KEKs: wrap, unwrap, wrong KEK, single-bit corruption, truncation, extension, all lengths 0..56 incl. the bare RFC 3394 IV; 23 payload struct types x random in-domain values (implementation-only round trip)",
              trusted=["strconv: shortest float printing and correctly rounded parsing (json.Marshal(float64) then ParseFloat is the identity) - the JSON text between the two conversions is not modelled",
                       "crypto/aes modelled by an arbitrary lawful block cipher in the theorems; executable AES-128/192/256 compared on every key-envelope op; RFC 3394 section 4 vectors in the corpus",
-                      "time.Time / time.Parse(RFC3339) modelled by hand (LW.Backend.formatRFC3339 / parseRFC3339, proleptic Gregorian civil-date algorithms), validated by correspondence only - no theorem yet",
+                      "time.Time.Format / time.Parse(RFC3339) modelled by hand (LW.Backend.formatRFC3339 / parseRFC3339, proleptic Gregorian civil-date algorithms): the round trip of the model is a theorem (C17_time_roundtrip, C17_calendar); that the model is package time is validated by correspondence (timeenc / timedec / timert ops)",
                       "encoding/json object encoding (omitempty, embedded structs, pointers) is not modelled: the payload structs are round-tripped by the implementation only and compared field by field (a test, not a proof)",
-                      "LW/Proofs/Float.lean uses Mathlib tactics (nlinarith, linarith, ring); its theorems depend on propext, Classical.choice, Quot.sound only"],
+                      "LW/Proofs/Float.lean and LW/Proofs/Time.lean use Mathlib tactics (nlinarith, linarith, ring, interval_cases, norm_num); their theorems depend on propext, Classical.choice, Quot.sound only"],
              exhaustive_parts=["Percentage 0..100 (theorem: 0..1000 by kernel evaluation)", "key-envelope input lengths 0..56"]),
     "C18": P("for every (package, direction, CID) of the four regenerated registries: in-width values of the payload type (3 in 4; boundary values forced 1 in 4) and full-Go-domain values (1 in 4), each encoded (Size + MarshalBinary) and sent through Commands encode->decode; "
              "EXHAUSTIVE for the 11 single-byte payload types (all in-width values, all 256 wire bytes); raw Command decodes at every length 0..Size+7; commands without payload and unknown CIDs 0..11 in both directions; payloads under a foreign CID; "
@@ -139,7 +139,7 @@ MANIFEST_TEXT = {
     "C04": dict(
         text="Lean theorems: C04_join_mic, C04_ja_mic (1.0 / OptNeg forms), C04_ja_encrypt (ciphertext = aes128_decrypt ECB over payload|MIC), C04_ja_device (device recovers payload|MIC with aes128_encrypt, any lawful cipher), C04_ja_sizes (12/28 bytes). "
              "Every Go MIC / ciphertext is compared with the specification value; decrypt(encrypt) is compared with the model.",
-        note="Trusted: Lean kernel; Spec transcription; executable AES. The parse of the decrypted join-accept (CFList) is tied by correspondence; its round-trip theorem is not yet proved.",
+        note="Trusted: Lean kernel; Spec transcription; executable AES. C04_ja_encrypt_decrypt: encrypt then decrypt gives the payload back (with the C01 join-accept round trip).",
         technique="Lean 4 proof (model = spec, ECB inverse) + differential correspondence"),
     "C05": dict(
         text="Lean theorem C05_exchange: for ANY data frame (MType 2..5, both directions, both MAC versions, any lawful cipher, keys, registry, 32-bit counter) with MAC commands in FOpts and absent / port-0 command / application FRMPayload, the bytes produced by the sender pipeline "
